@@ -37,8 +37,9 @@ func TestC14Enum(t *testing.T) {
 	C14URI.RunJobs(t, descs, jobs)
 }
 
-func TestC15Rapid(t *testing.T) { C15Cmp.RunRapid(t) }
-func TestC18Rapid(t *testing.T) { C18Reloc.RunRapid(t) }
+func TestC15Rapid(t *testing.T)      { C15Cmp.RunRapid(t) }
+func TestC18Rapid(t *testing.T)      { C18Reloc.RunRapid(t) }
+func TestC11RelocRapid(t *testing.T) { C11Reloc.RunRapid(t) }
 
 // TestC18Enum: every accepted URI of the small scope x every span 0..len+1 x offsets {0, 1, 7}.
 func TestC18Enum(t *testing.T) {
